@@ -58,6 +58,7 @@ CFG = {
         "Swat4.C06.reaches_implies_decodable",
         "Swat4.C06.acts_as_wellformed",
         "Swat4.C06.facts_ok",
+        "Swat4.C06.udp_socket_never_panics", "Swat4.C06.udp_socket_delivers",
     ],
     "shards": (4, 8),
     "nontrivial": _c06_nontrivial,
